@@ -26,6 +26,7 @@
  *   hash ID                                       parameter hash count, unknown count
  *   live                                          live blocks allocated by the library (allocwrap)
  *   merror ID sigma_nf sigma_tr                   vnacal_new_set_m_error (single value)
+ *   pvalue PID f                                  vnacal_get_parameter_value
  */
 #include "archdep.h"
 #include <assert.h>
@@ -223,6 +224,12 @@ int main(void)
 	    params[pid] = vnacal_make_vector_parameter(vcp, fv, n, gv);
 	    TRACK(0);
 	    printf("vector %d h=%d\n", pid, params[pid]);
+	} else if (strcmp(cmd, "pvalue") == 0) {
+	    int pid = geti(); double f = getd();
+	    TRACK(1);
+	    double complex v = vnacal_get_parameter_value(vcp, params[pid], f);
+	    TRACK(0);
+	    printf("pvalue %d %a %a\n", pid, creal(v), cimag(v));
 	} else if (strcmp(cmd, "merror") == 0) {
 	    int id = geti(); double nf = getd(), tr = getd();
 	    TRACK(1);
